@@ -21,6 +21,9 @@ func (c14) ID() string { return "C14" }
 
 var reportCmds = map[string]bool{"balance": true, "print": true, "transcode": true, "infer": true, "check --write": true}
 
+// report commands the statement does not list by name; their stdout on failure
+// is not judged by C14 (portfolio, register)
+
 type cmdShape struct {
 	name  string
 	args  func(r *simrt.Rand, j *Journal) []string
@@ -64,8 +67,57 @@ func (c14) Gen(r *simrt.Rand, idx int, tier string) *Case {
 	g.MaxSpan = 200
 	g.Prices = "tree"
 	c := &Case{Gen: &g, Today: "2030-01-01"}
-	subs := []string{"readfault", "include-graph", "flags", "soup", "edge", "readfault", "infer-fault"}
+	subs := []string{"readfault", "include-graph", "flags", "soup", "edge", "readfault", "infer-fault", "late-failure"}
 	c.Sub = subs[idx%len(subs)]
+	if c.Sub == "late-failure" {
+		// a long journal whose only defect comes at the very end: everything a
+		// streaming implementation could already have written is on stdout by then
+		g.MaxTxn = 140
+		g.MaxSpan = 600
+		g.MaxAcc = 6
+		g.PAssert = 0.05
+		g.PClose = 0
+		for try := 0; try < 10; try++ {
+			c.J = Gen(r, g)
+			n := 0
+			for _, d := range c.J.Dirs {
+				if d.Kind == "txn" {
+					n++
+				}
+			}
+			if n >= 60 {
+				break
+			}
+		}
+		_, max, _ := c.J.TxnSpan()
+		accs := c.J.Accounts()
+		var al string
+		for _, a := range accs {
+			if isAL(a) {
+				al = a
+			}
+		}
+		valued := r.P(0.5)
+		switch {
+		case valued:
+			// a commodity without any price, booked on the last day
+			c.J.Dirs = append(c.J.Dirs, Dir{Kind: "txn", Date: max + 1, Desc: "unpriced", Bookings: []Booking{{Credit: "Equity:Equity", Debit: al, Qty: 5 * QScale, Com: "NOPRICE"}}})
+			c.Note = "unpriced commodity on the last day"
+		default:
+			c.J.Dirs = append(c.J.Dirs, Dir{Kind: "assert", Date: max + 1, Balances: []Bal{{Account: al, Qty: 123456789, Com: comOr(c.J, "CHF")}}})
+			c.Note = "failing assertion on the last day"
+		}
+		c.L = RandLayout(r, c.J, 4)
+		c.Scheds = []Sched{RandSched(r), RandSched(r)}
+		v := comOr(c.J, "CHF")
+		cmds := [][]string{{"transcode", "-v", v}, {"balance", "--color=false", "-v", v, "--days", "--last", "400"}, {"portfolio returns", "-v", v, "--weeks"}, {"portfolio weights", "-v", v, "--weeks", "--csv"}, {"register", "-v", v}}
+		if !valued {
+			cmds = append(cmds, []string{"print"}, []string{"check", "--write"}, []string{"balance", "--color=false", "--weeks"}, []string{"register"})
+		}
+		pick := cmds[r.Intn(len(cmds))]
+		c.Cmd, c.Args = pick[0], pick[1:]
+		return c
+	}
 	c.J = Gen(r, g)
 	c.L = RandLayout(r, c.J, 6)
 	c.Scheds = []Sched{RandSched(r)}
@@ -147,6 +199,15 @@ func (c14) Eval(c *Case) (*Violation, bool) {
 	s := c.Scheds[0]
 	names := sortedKeys(files)
 	switch c.Sub {
+	case "late-failure":
+		for _, sc := range c.Scheds {
+			o := Run(c.specFor(sc, files, c.argv(main)))
+			if v := cleanEnd(o, c.Cmd, c.Args, true, c.Note); v != nil {
+				v.Signature += ":late-failure"
+				return v, false
+			}
+		}
+		return nil, false
 	case "readfault", "infer-fault":
 		var argv []string
 		if c.Sub == "infer-fault" {
